@@ -25,16 +25,56 @@ def env_offline(extra=None):
     return e
 
 
-def run(cmd, timeout=None, env=None, cwd=None, stdin=None):
-    """returns (rc, stdout+stderr, seconds); rc = -9 on timeout"""
-    t0 = time.time()
+_LIVE = set()
+_REAPER = [False]
+
+
+def _install_reaper():
+    """children started by run() live in their own process groups; if this process ends or is terminated they are killed too"""
+    if _REAPER[0]:
+        return
+    _REAPER[0] = True
+    import atexit, signal
+
+    def reap(*a):
+        for pid in list(_LIVE):
+            try:
+                os.killpg(pid, signal.SIGKILL)
+            except Exception:
+                pass
+        if a:          # called as a signal handler
+            os._exit(143)
+    atexit.register(reap)
     try:
-        p = subprocess.run(cmd, shell=isinstance(cmd, str), cwd=cwd, env=env or env_offline(), input=stdin,
-                           stdout=subprocess.PIPE, stderr=subprocess.STDOUT, timeout=timeout, text=True)
-        return p.returncode, p.stdout, time.time() - t0
-    except subprocess.TimeoutExpired as e:
-        out = e.stdout.decode() if isinstance(e.stdout, bytes) else (e.stdout or '')
-        return -9, out, time.time() - t0
+        signal.signal(signal.SIGTERM, reap)
+    except ValueError:
+        pass           # not the main thread: atexit still applies
+
+
+def run(cmd, timeout=None, env=None, cwd=None, stdin=None):
+    """returns (rc, stdout+stderr, seconds); rc = -9 on timeout. The command runs in its own process group and the whole group
+    is killed on timeout (cargo-kani's cbmc children otherwise survive their parent and keep a core busy for hours)."""
+    import signal
+    t0 = time.time()
+    _install_reaper()
+    p = subprocess.Popen(cmd, shell=isinstance(cmd, str), cwd=cwd, env=env or env_offline(), stdin=subprocess.PIPE if stdin is not None else None,
+                         stdout=subprocess.PIPE, stderr=subprocess.STDOUT, text=True, start_new_session=True)
+    _LIVE.add(p.pid)
+    try:
+        out, _ = p.communicate(input=stdin, timeout=timeout)
+        _LIVE.discard(p.pid)
+        return p.returncode, out, time.time() - t0
+    except subprocess.TimeoutExpired:
+        _LIVE.discard(p.pid)
+        try:
+            os.killpg(p.pid, signal.SIGKILL)
+        except (ProcessLookupError, PermissionError):
+            p.kill()
+        try:
+            out, _ = p.communicate(timeout=30)
+        except Exception:
+            out = ''
+        return -9, out or '', time.time() - t0
 
 
 def seed():
